@@ -188,6 +188,10 @@ func run(c *core.Ctx) {
 	sub := c.Shard % subShards
 	// expected results: every call alone, twice (must be deterministic)
 	alone := map[string]string{}
+	initial := ""
+	if g.Snapshot != nil {
+		initial = g.Snapshot() // the shared objects as constructed, before any call
+	}
 	for _, o := range g.Ops {
 		reset()
 		a, _ := o.Run()
@@ -196,6 +200,15 @@ func run(c *core.Ctx) {
 			c.HarnessError("call %s is not deterministic alone: %q vs %q", o.Name, a, b)
 		}
 		alone[o.Name] = a
+		// a shared object that is completed on first use (a type registered lazily,
+		// a fragment rewritten in place) is written by whichever goroutine comes
+		// first while the others read it: it has to be complete when constructed
+		if g.Snapshot != nil && sub == 0 {
+			if now := g.Snapshot(); now != initial {
+				c.Fail(core.Sig("group="+g.Name, "call="+o.Name, "shared-mutated-by-first-use"), caseT{Group: g.Name, Threads: [][]string{{o.Name}}}, 1000, initial, now)
+				initial = now
+			}
+		}
 	}
 	bound := c.Pick(2, 3)
 	n := 0
